@@ -28,6 +28,7 @@ CONSTANTS
   MaxList = %(maxlist)d
   MaxTxns = %(maxtxns)d
   DataSet = {%(data)s}
+  DropSet = {%(drop)s}
   Devs = {%(devs)s}
   Gen = %(gen)s
 %(tail)s
@@ -45,14 +46,16 @@ PCFG = """SPECIFICATION %(spec)s
 CONSTANTS
   MaxList = %(maxlist)d
   StSet = {%(st)s}
+  Scopes = {%(scopes)s}
   Devs = {%(devs)s}
   Gen = %(gen)s
 %(tail)s
 """
 
 
-def pcfg(spec="Spec", maxlist=2, st=("ok", "temp", "perm"), devs=(), gen=False, tail=MC_TAIL):
-    return PCFG % dict(spec=spec, maxlist=maxlist, st=q(st), devs=q(devs), gen="TRUE" if gen else "FALSE", tail=tail)
+def pcfg(spec="Spec", maxlist=2, st=("ok", "temp", "perm"), scopes=("global", "source", "dest"), devs=(), gen=False,
+         tail=MC_TAIL):
+    return PCFG % dict(spec=spec, maxlist=maxlist, st=q(st), scopes=q(scopes), devs=q(devs), gen="TRUE" if gen else "FALSE", tail=tail)
 
 
 def q(xs):
@@ -60,9 +63,9 @@ def q(xs):
 
 
 def cfg(spec="Spec", kinds=("remote", "lmtp"), rcpts=ALL_RCPTS, maxlist=3, maxtxns=4,
-        data=("ok", "temp", "perm"), devs=(), gen=False, tail=MC_TAIL):
+        data=("ok", "temp", "perm"), drop=(0, 1, 2), devs=(), gen=False, tail=MC_TAIL):
     return CFG % dict(spec=spec, kinds=q(kinds), rcpts=q(rcpts), maxlist=maxlist, maxtxns=maxtxns,
-                      data=q(data), devs=q(devs), gen="TRUE" if gen else "FALSE", tail=tail)
+                      data=q(data), drop=", ".join(str(d) for d in drop), devs=q(devs), gen="TRUE" if gen else "FALSE", tail=tail)
 
 
 def open_findings():
@@ -98,7 +101,8 @@ def dedup(behs):
 def nontrivial(b):
     for t in b["txns"]:
         p = t["plan"]
-        if any(v != "ok" for part in p.values() for v in part.values()):
+        if p.get("drop", 3) < len(t["rcpts"]) or \
+                any(v != "ok" for part in p.values() if isinstance(part, dict) for v in part.values()):
             return True
         if len(set(t["rcpts"])) < len(t["rcpts"]) or any(r in ("nl", "idn", "cv") for r in t["rcpts"]):
             return True
@@ -179,6 +183,9 @@ def run_targets(ctx, replay_obj, binary, known, thorough, skip_mc):
                                     gen=True, tail=GEN_TAIL)),
                  ("gen-lmtp", cfg(kinds=("lmtp",), rcpts=("a1", "idn"), maxlist=2, maxtxns=1, data=("ok", "temp"),
                                   gen=True, tail=GEN_TAIL))]
+        # LMTP next hop breaking the connection between two per-recipient answers
+        focus += [("gen-lmtp-drop", cfg(kinds=("lmtp",), rcpts=("a1", "a2"), maxlist=3 if thorough else 2, maxtxns=1,
+                                        data=("ok",), drop=(1, 2), gen=True, tail=GEN_TAIL))]
         if thorough:
             focus += [("gen-remote3", cfg(kinds=("remote",), rcpts=("a1", "idn"), maxlist=1, maxtxns=3,
                                           data=("ok", "perm"), gen=True, tail=GEN_TAIL)),
@@ -190,6 +197,8 @@ def run_targets(ctx, replay_obj, binary, known, thorough, skip_mc):
                 raise vlib.Infra("behaviour generation %s failed: %s %s" % (name, g["invariant"], g["error"]))
             got = behaviours_from(g)
             ctx.cov["exhaustive_" + name] = len(got)
+            if name == "gen-lmtp-drop":     # keep the behaviours in which the break really happens
+                got = [b for b in got if b["txns"][0]["plan"]["drop"] < len(b["txns"][0]["rcpts"])]
             if not thorough and len(got) > 400:
                 got = vlib.sample(ctx.rng, got, 400)
             behs += got
